@@ -74,6 +74,8 @@ def op_term(op):
         return C(k, op[1])
     if k in ("Update", "Ior", "Ctor"):
         return C(k, op[1] in MAPPINGS, amap(op[2]))
+    if k == "UpdateBad":
+        return C(k, amap(op[1]), op[2])
     if k == "SetDefault":
         return C(k, op[1], op[2])
     if k == "SetDefault1":
@@ -118,6 +120,8 @@ def shape(case, obs, step):
         return "key-absent"
     if op[0] in ("Update", "Ior", "Ctor"):
         return op[1]
+    if op[0] == "UpdateBad":
+        return "element-of-length-%d" % op[2]
     return "-"
 
 
@@ -218,7 +222,7 @@ def gen_case(rnd, ctx, maxlen):
     ops = []
     for _ in range(rnd.randint(1, maxlen)):
         k = rnd.choice(["SetItem"] * 3 + ["DelItem"] * 2 + ["Update"] * 3 + ["Ior"] * 2 + ["SetDefault"] * 3 +
-                       ["SetDefault1", "Pop", "Pop", "PopD", "PopD", "PopItem", "Clear", "Ctor"])
+                       ["SetDefault1", "Pop", "Pop", "PopD", "PopD", "PopItem", "Clear", "Ctor", "UpdateBad"])
         if k == "SetItem":
             key = single_key()
             op = [k, key, pick_val(key)]
@@ -233,6 +237,8 @@ def gen_case(rnd, ctx, maxlen):
             ctx.count("update-argument:" + op[1])
         elif k == "Ctor":
             op = [k, rnd.choice(["map", "pairs"]) if target == "plain" else "map", pick_pairs()]
+        elif k == "UpdateBad":
+            op = [k, pick_pairs(), rnd.choice([1, 3, 30])]
         elif k == "SetDefault":
             key = single_key()
             op = [k, key, pick_val(key)]
@@ -314,7 +320,7 @@ def grid(ctx, stride, offset):
     for ps in pair_lists:
         for kind in ("map", "pairs", "proxy", "userdict", "chainmap", "ordered", "gen", "iterpairs"):
             ops += [["Update", kind, ps], ["Ior", kind, ps]]
-        ops += [["Ctor", "map", ps]]
+        ops += [["Ctor", "map", ps], ["UpdateBad", ps, 3], ["UpdateBad", ps, 1]]
     cs, i = [], 0
     for target in ("plain", "obj", "obj_noitems"):
         for kk in ("VAll", "VInt", "VCInt"):
